@@ -242,15 +242,20 @@ def model_fidelity(res, module):
 def bisect_fidelity(res, extra_viol): return model_fidelity(res, 'VFSeek_Trace')
 
 def open_model_check(pid, quick):
-    """VFOpen_MC: the link discovery of a seekable open over every chain of catalogue shapes"""
-    out = dict(states=0, transitions=0, configs={}); viol = []
-    for c in (['VFOpen_MC.cfg', 'VFOpen_MC_hdronly.cfg'] if quick else ['VFOpen_MC.cfg', 'VFOpen_MC_hdronly.cfg', 'VFOpen_MC_3.cfg']):
-        r = vlib.run_tlc_cached('VFOpen_MC.tla', c, workers=4 if quick else 14, timeout=300 if quick else 3000)
+    """VFOpen_MC: the link discovery of a seekable open over every chain of catalogue shapes (the table is the truth), over every such chain with one / two
+       pages lying about themselves or missing or doubled (the open ends, asks only for offsets inside the file, and a table it accepts is usable), and
+       one pinned rule (the back-step without its clamp at 0) that TLC must refute"""
+    out = dict(states=0, transitions=0, configs={}, pinned_rules_refuted={}); viol = []
+    cfgs = ['VFOpen_MC.cfg', 'VFOpen_MC_hdronly.cfg', 'VFOpen_MC_damage.cfg'] + ([] if quick else ['VFOpen_MC_3.cfg', 'VFOpen_MC_damage2.cfg'])
+    for c in cfgs:
+        r = vlib.run_tlc_cached('VFOpen_MC.tla', c, workers=8 if quick else 14, timeout=600 if quick else 3000, xmx='4g' if quick else '12g')
         out['configs'][c] = dict(ok=bool(r['ok']), states=r['distinct'], wall_s=round(r['wall'], 1)); out['states'] += r['distinct']; out['transitions'] += r['generated']
         if not r['ok']:
             os.makedirs(vlib.REPLAY, exist_ok=True); p = os.path.join(vlib.REPLAY, f'{pid}-design-{c}.txt'); o = r['out']; i = o.find('Error:'); open(p, 'w').write(o[max(0, i):i + 4000])
-            if r['violated']: viol.append(dict(replay=p, what=f'design-level invariant of VFOpen_MC violated under {c}: the link discovery as modelled from the current tree builds a wrong link table'))
+            if r['violated']: viol.append(dict(replay=p, what=f'design-level invariant of VFOpen_MC violated under {c}: the link discovery as modelled from the current tree builds a wrong link table, does not end or leaves the file'))
             else: raise SystemExit(f'TLC failed on {c}: ' + o[-800:])
+    r = vlib.run_tlc('VFOpen_MC.tla', 'VFOpen_MC_pinned_clamp.cfg', workers=4, timeout=600)
+    out['pinned_rules_refuted']['VFOpen_MC_pinned_clamp.cfg'] = bool(r['violated'])
     return out, viol
 
 def seek_model_check(pid, quick):
